@@ -893,9 +893,109 @@ func cycles() {
 	vrt.Observe("n=%d", n)
 }
 
+// switchSignal: one client stops following tick and starts following other while an
+// event of tick is on its way (the emitter runs concurrently). The new subscription
+// takes the place the old one had on the client's connection: it must never be handed
+// a tick event, and it must stay open (seed C13-19 / C10-20: filters evaluated on a
+// snapshot of the handler table, delivery by slot index).
+func switchSignal() {
+	collected = nil
+	w := fx.Start(bus.Yes{})
+	c1 := w.MustConnect()
+	p := c1.Probe(1)
+	cancelT, chT, errT := p.SubscribeTick()
+	// a second subscription of the same client to tick: leaving the first one then
+	// needs no round trip (the registration stays), so that the place it had on the
+	// connection is free again while the event is still being dispatched
+	_, chT2, errT2 := p.SubscribeTick()
+	if errT != nil || errT2 != nil {
+		failf("subscribe-failed/switch", "tick: %v %v", errT, errT2)
+		flush()
+		return
+	}
+	var ticks, ticks2, others []int32
+	vrt.GoNamed("drain-tick", func() {
+		for v := range chT {
+			ticks = append(ticks, v)
+		}
+	})
+	vrt.GoNamed("drain-tick-2", func() {
+		for v := range chT2 {
+			ticks2 = append(ticks2, v)
+		}
+	})
+	vrt.Quiesce()
+	vrt.Explore()
+	var chO chan int32
+	var errO error
+	otherOpen := true
+	sw := vrt.GoWorker("switcher", func() {
+		cancelT()
+		_, chO, errO = p.SubscribeOther()
+		if errO != nil {
+			return
+		}
+		vrt.GoNamed("drain-other", func() {
+			for v := range chO {
+				others = append(others, v)
+			}
+			otherOpen = false
+		})
+	})
+	em := vrt.GoWorker("emitter", func() {
+		for _, n := range []int32{1, 2} {
+			if err := w.Root.Helper.SignalTick(n); err != nil {
+				failf("emit-error", "tick(%d): %v", n, err)
+			}
+		}
+	})
+	vrt.Quiesce()
+	fx.Settle(sw, em)
+	if errO != nil {
+		failf("subscribe-failed/switch", "other, right after leaving tick: %v", errO)
+		flush()
+		return
+	}
+	vrt.Freeze()
+	// the new subscription works: it receives the event of its own signal, and only that
+	if err := w.Root.Helper.SignalOther(77); err != nil {
+		failf("emit-error", "other(77): %v", err)
+	}
+	vrt.Quiesce()
+	for _, v := range others {
+		if v != 77 {
+			failf("foreign-event/other", "the subscription to the signal other received %d, an event of the signal tick it never subscribed to (received %v)", v, others)
+		}
+	}
+	if !otherOpen {
+		failf("subscription-closed/other", "the channel of the fresh subscription to other was closed although nobody cancelled it")
+	} else if len(others) == 0 || others[len(others)-1] != 77 {
+		failf("event-lost/other", "the subscription to other, acknowledged before other(77) was emitted, received %v", others)
+	}
+	for i, v := range ticks {
+		if v != int32(i+1) {
+			failf("event-order/tick", "the tick subscription received %v", ticks)
+		}
+	}
+	if fmt.Sprint(ticks2) != "[1 2]" {
+		failf("disturbed-by-other-unsubscribe/tick", "the subscription to tick that stayed received %v of [1 2] while another subscription of its client left", ticks2)
+	}
+	if len(ticks) > 0 {
+		vrt.Flag("tick-delivered-before-switch")
+	}
+	if len(ticks) < 2 {
+		vrt.Flag("switch-before-last-tick")
+	}
+	fx.Settle()
+	flush()
+	vrt.Observe("ticks=%v others=%v", ticks, others)
+}
+
 func init() {
 	reg.Register(&reg.Scenario{Property: "C13", Name: "subscriber-beside-caller", Body: besideCaller, Quick: 2, Thorough: 3,
 		Doc: "one goroutine subscribes while another goroutine of the same client makes two calls (answer handlers and event handler share the connection's handler table); three events afterwards: all received, channel open until cancel, calls answered"})
+	reg.Register(&reg.Scenario{Property: "C13", Name: "switch-signal-during-event", Body: switchSignal, Quick: 2, Thorough: 3,
+		Doc: "one client: cancel(tick); subscribe(other) || the service emits tick twice: the fresh subscription to other never receives a tick event, stays open and receives the next other event", MustFlag: []string{"tick-delivered-before-switch", "switch-before-last-tick"}})
 	reg.Register(&reg.Scenario{Property: "C13", Name: "two-signals-and-a-property-one-connection", Body: twoSignals, Quick: 0, Thorough: 1,
 		Doc: "one connection follows two signals and the property of one object and stops following one of the three: the two others keep receiving every event"})
 	reg.Register(&reg.Scenario{Property: "C13", Name: "twelve-subscribers", Body: manySubscribers, Quick: 0, Thorough: 0,
